@@ -690,6 +690,24 @@ func (e *Env) call(x *SExpr) Val {
 			return e.fail("within of non-slices")
 		}
 		return boolVal(and(eq(a.Sl[0], b.Sl[0]), sx("bvsle", b.Sl[1], a.Sl[1]), sx("bvsle", i64(0), a.Sl[2]), sx("bvsle", bvAdd(a.Sl[1], a.Sl[2]), bvAdd(b.Sl[1], b.Sl[2]))))
+	case "setadd", "setdel":
+		// setadd(S, k) / setdel(S, k): ghost set S with k added / removed
+		sv, k := argv(0), argv(1)
+		if sv.K != KGhost {
+			return e.fail("%s: first argument is not a ghost set", name)
+		}
+		if k.K == KConst {
+			k = vc.convert(e.st, k, types.Typ[types.Int], token.Position{})
+		}
+		f, ok := flatten(k)
+		if !ok || len(f) != 1 {
+			return e.fail("%s: key must be scalar", name)
+		}
+		val := "true"
+		if name == "setdel" {
+			val = "false"
+		}
+		return Val{K: KGhost, GSort: sv.GSort, S: store(sv.S, f[0], val)}
 	case "lockepoch":
 		// lockepoch("path"): how many times the mutex has been acquired so far in this function; two
 		// program points with the same epoch and the mutex held lie in one critical section
